@@ -132,7 +132,12 @@ theorem parseNode_element_N (e : BEnv) (Γ : Ctx) (pcfg : ParserConfig) (m : Xml
     · intro P ws var y hk hpop hfr
       rcases hk with hf | ⟨hwf, q', t, tl, a', kids', rfl⟩
       · simp [bindObject_N hf hc ws P y hpop hfr, bind, Except.bind, pure, Except.pure]
-      · simp [bindObject_W hwf ws P _ _ _ _ _ hpop, bind, Except.bind, pure, Except.pure]
+      · have hfw : var.listElement = true ∨ P.has var.name = false := by
+          rcases hfr with h | h | h
+          · exact Or.inl h
+          · rw [hwf.init] at h; cases h
+          · exact Or.inr h
+        simp [bindObject_W hwf ws P _ _ _ _ _ hpop hfw, bind, Except.bind, pure, Except.pure]
   · have hfw : m.findAnyWildcard = some wv := by simp [XmlMeta.findAnyWildcard, h]
     subst ht
     simp only [hK, bind, Except.bind, hcond, if_true, hA, hfw, hm, Bool.false_eq_true, if_false]
@@ -141,7 +146,12 @@ theorem parseNode_element_N (e : BEnv) (Γ : Ctx) (pcfg : ParserConfig) (m : Xml
     · intro P ws var y hk hpop hfr
       rcases hk with hf | ⟨hwf, q', t, tl, a', kids', rfl⟩
       · simp [bindObject_N hf hc ws P y hpop hfr, bind, Except.bind, pure, Except.pure]
-      · simp [bindObject_W hwf ws P _ _ _ _ _ hpop, bind, Except.bind, pure, Except.pure]
+      · have hfw : var.listElement = true ∨ P.has var.name = false := by
+          rcases hfr with h | h | h
+          · exact Or.inl h
+          · rw [hwf.init] at h; cases h
+          · exact Or.inr h
+        simp [bindObject_W hwf ws P _ _ _ _ _ hpop hfw, bind, Except.bind, pure, Except.pure]
 
 
 /-! ### one element var: everything the induction step needs -/
@@ -400,6 +410,147 @@ theorem prim_bundle (e : BEnv) (Γ : Ctx) (cfg : SerCfg) (pcfg : ParserConfig) (
       | any q tx tl a cs => simp [primItemOK] at hx
       | derived q v tp => simp [primItemOK] at hx
       | attrs a => simp [primItemOK] at hx
+
+
+/-! ### element vars whose type is a union of primitives -/
+
+/-- `deserialize` with `str` / `int` / `bool` candidates does not look at the prefix map -/
+theorem deserialize_noQName (e : BEnv) (s : Str) (M : NsMap) : ∀ (types : List TypeRef),
+    (∀ t ∈ types, t = .prim .str ∨ t = .prim .int ∨ t = .prim .bool) →
+    deserialize e s types M = deserialize e s types [] := by
+  intro types
+  induction types with
+  | nil => intro _; rfl
+  | cons t r ih =>
+    intro h
+    have ht := h t (by simp)
+    have h1 : deOne e s t M = deOne e s t [] := by rcases ht with rfl | rfl | rfl <;> rfl
+    simp only [deserialize, List.findSome?_cons, h1]
+    cases deOne e s t [] with
+    | some _ => rfl
+    | none => exact ih (fun t' h' => h t' (by simp [h']))
+
+theorem primUnionOf_types {var : XmlVar} (h : primUnionOf var = true) :
+    ∀ t ∈ var.types, t = .prim .str ∨ t = .prim .int ∨ t = .prim .bool := by
+  simp only [primUnionOf, Bool.and_eq_true, List.all_eq_true, Bool.or_eq_true, decide_eq_true_eq] at h
+  intro t ht
+  rcases h.2 t ht with (h' | h') | h'
+  · exact Or.inl h'
+  · exact Or.inr (Or.inl h')
+  · exact Or.inr (Or.inr h')
+
+theorem unionItemOK_prim {e : BEnv} {var : XmlVar} {y : Val} (h : unionItemOK e var y = true) :
+    ∃ p tp, y = .prim p ∧ primHasType p tp = true ∧
+      (p = .str [] ∨ (serPrim p ≠ [] ∧ deserialize e (serPrim p) var.types [] = some p)) := by
+  cases y with
+  | prim p =>
+    simp only [unionItemOK, Bool.and_eq_true, Bool.or_eq_true, decide_eq_true_eq, Bool.not_eq_true',
+      List.isEmpty_eq_false_iff] at h
+    obtain ⟨hty, hv⟩ := h
+    have htp : ∃ tp, primHasType p tp = true := by
+      cases p with
+      | str _ => exact ⟨.str, rfl⟩
+      | int _ => exact ⟨.int, rfl⟩
+      | bool _ => exact ⟨.bool, rfl⟩
+      | qname _ => simp [pvalType] at hty
+    obtain ⟨tp, htp⟩ := htp
+    exact ⟨p, tp, rfl, htp, hv⟩
+  | _ => simp [unionItemOK] at h
+
+/-- parser of one item of a union var -/
+theorem parseNode_unionN (e : BEnv) (Γ : Ctx) (pcfg : ParserConfig) {m : XmlMeta} {var : XmlVar}
+    (hw : m.mixedContent = false) (htk : var.tokens = false) (hn : var.nillable = false)
+    (hu : primUnionOf var = true) (hd : var.default = .none ∨ var.default = .listFactory) (M : NsMap)
+    {p : PVal} (hv : p = .str [] ∨ (serPrim p ≠ [] ∧ deserialize e (serPrim p) var.types [] = some p)) :
+    parseNode e Γ pcfg (.primitive m var M false) (primItemTree M var (.prim p)) =
+      .ok ⟨[(some var.qname, .prim p)], 0⟩ := by
+  simp only [primItemTree]
+  rw [parseNode]
+  rcases hv with rfl | ⟨hne, hde⟩
+  · rcases hd with hd | hd <;>
+      simp [optText, serPrim, parseVar, hd, htk, hn, hw, bind, Except.bind, pure, Except.pure]
+  · have ht : optText (serPrim p) = some (serPrim p) := by simp [optText, hne]
+    have hde' := deserialize_noQName e (serPrim p) M var.types (primUnionOf_types hu)
+    rw [hde] at hde'
+    simp [ht, parseVar, htk, hde', hn, hw, bind, Except.bind, pure, Except.pure]
+
+/-- one item of a union var: generator, writer, parser -/
+theorem unionItem_all (e : BEnv) (Γ : Ctx) (cfg : SerCfg) (pcfg : ParserConfig) (M : NsMap)
+    (ns : Option Str) (rec : XmlVar → Val → Tree) {m : XmlMeta} {var : XmlVar}
+    (hf : ElemFactsN m var) (hw : m.mixedContent = false) (hcl : var.clazz = none)
+    (htk : var.tokens = false) (hn : var.nillable = false) (hu : primUnionOf var = true)
+    (hd : var.default = .none ∨ var.default = .listFactory) {y : Val}
+    (hok : unionItemOK e var y = true) (f : Nat) (hfuel : 2 ≤ f) :
+    (∃ evs, itemGen e Γ cfg var ns f y = .ok evs ∧
+      SubW M (isDatatype Γ) evs (treeSax (itemTreeNN M rec var y))) ∧
+    plain M (itemTreeNN M rec var y) = true ∧ ItemP e Γ pcfg M m var y (itemTreeNN M rec var y) := by
+  obtain ⟨p, tp, rfl, hpt, hv⟩ := unionItemOK_prim hok
+  have hy : PrimItem e var tp (.prim p) := PrimItem.prim p hpt
+  have htree : itemTreeNN M rec var (.prim p) = primItemTree M var (.prim p) := rfl
+  rw [htree]
+  obtain ⟨d, hdd, hce⟩ := convertElement_N hf hy
+  have hsub := primItem_SubW (Γ := Γ) M hy hdd
+  obtain ⟨f', rfl⟩ : ∃ f', f = f' + 2 := ⟨f - 2, by omega⟩
+  refine ⟨⟨_, ?_, hsub⟩, by simp [primItemTree, plain, plainList], ?_⟩
+  · simp [itemGen, htk, genValue_primItem e Γ cfg hf htk (Or.inr ⟨p, rfl⟩) ns f', hce]
+  · exact ⟨_, _, _, _, rfl, buildNode_primN e Γ hf hcl _ M (by simp),
+      parseNode_unionN e Γ pcfg hw htk hn hu hd M hv⟩
+
+/-- an element var whose type is a union of primitives -/
+theorem union_bundle (e : BEnv) (Γ : Ctx) (cfg : SerCfg) (pcfg : ParserConfig) (M : NsMap)
+    (ns : Option Str) (rec : XmlVar → Val → Tree) {m : XmlMeta} {ci : ClassInfo} {var : XmlVar}
+    (hf : ElemFactsN m var) (hw : m.mixedContent = false) (hcl : var.clazz = none)
+    (hp : primTypeOf var = none) (hu : primUnionOf var = true) (hi : var.init = true)
+    (htk : var.tokens = false) (hn : var.nillable = false)
+    (hd : if var.listElement then var.default = .listFactory else var.default = .none)
+    {x : Val} {inh : Bool} (rc : ClassId → Option QN → Val → Bool)
+    (hx : FN.elemValOK inh e Γ m ci var rc x = true) (f : Nat) (hfuel : 2 ≤ f) :
+    VarBundle e Γ cfg pcfg M m ci ns rec f var x := by
+  unfold FN.elemValOK at hx
+  rw [Bool.and_eq_true] at hx
+  replace hx := hx.2
+  have hnw : var.isWildcard = false := by simp [VarCore.isWildcard, hf.isElem]
+  simp only [hnw, Bool.false_eq_true, if_false, hcl, hp] at hx
+  have hfI : ∀ fI, (fI = f + 1 ∨ (fI = f ∧ x.isArray = true)) → 2 ≤ fI := by
+    intro fI h; rcases h with h | h <;> omega
+  by_cases hl : var.listElement = true
+  · simp only [hl, if_true] at hx hd
+    cases x <;> simp at hx
+    rename_i xs
+    have hitems : itemsN var (.list xs) = xs := by simp [itemsN, htk]
+    refine ⟨Shape.list xs htk hl ?_, ?_, fun h => by simp [hl] at h, ?_⟩
+    · intro y hy
+      obtain ⟨p, tp, rfl, _⟩ := unionItemOK_prim (hx y hy)
+      rfl
+    · rw [hitems]
+      intro y hy fI hF
+      exact unionItem_all e Γ cfg pcfg M ns rec hf hw hcl htk hn hu (Or.inr hd) (hx y hy) fI (hfI fI hF)
+    · rw [hitems]
+      cases xs with
+      | nil => exact Or.inr ⟨by simp [finalParam, hl, hi], Or.inr (Or.inl ⟨rfl, hd⟩)⟩
+      | cons a l => exact Or.inl (by simp [finalParam, hl, hi])
+  · have hl' : var.listElement = false := by simpa using hl
+    simp only [hl', Bool.false_eq_true, if_false] at hx hd
+    cases x with
+    | none =>
+      have hitems : itemsN var .none = [] := by simp [itemsN, hn]
+      exact ⟨Shape.none htk hl', by simp [hitems], fun _ => by simp [hitems],
+        Or.inr ⟨by simp [hitems, finalParam], Or.inl ⟨rfl, by simpa using hx⟩⟩⟩
+    | prim p =>
+      have hitems : itemsN var (.prim p) = [.prim p] := rfl
+      have hok : unionItemOK e var (.prim p) = true := by simpa using hx
+      refine ⟨Shape.prim p htk hl', ?_, fun _ => by simp [hitems],
+        Or.inl (by simp [hitems, finalParam, hl', hi])⟩
+      rw [hitems]
+      intro y hy fI hF
+      simp only [List.mem_singleton] at hy
+      subst hy
+      exact unionItem_all e Γ cfg pcfg M ns rec hf hw hcl htk hn hu (Or.inl hd) hok fI (hfI fI hF)
+    | list xs => simp [unionItemOK] at hx
+    | obj c fs => simp [unionItemOK] at hx
+    | any q tx tl a cs => simp [unionItemOK] at hx
+    | derived q v tp => simp [unionItemOK] at hx
+    | attrs a => simp [unionItemOK] at hx
 
 
 /-! ### model-typed element vars -/
@@ -726,6 +877,7 @@ theorem items_nones {e : BEnv} {Γ : Ctx} {m : XmlMeta} {ci : ClassInfo} {var : 
             simp only [hl', Bool.false_eq_true, if_false] at hx
             simp [tokensOK] at hx
         | cls c m' hc htk _ _ _ => rw [htok] at htk; cases htk
+        | union _ _ _ _ htk _ _ => rw [htok] at htk; cases htk
       · simp at hy
     · have htok' : var.tokens = false := by simpa using htok
       simp only [itemsN, htok', Bool.false_eq_true, if_false] at hy
@@ -750,66 +902,123 @@ theorem items_nones {e : BEnv} {Γ : Ctx} {m : XmlMeta} {ci : ClassInfo} {var : 
           exact this.1
         · have hl' : var.listElement = false := by simpa using hl
           simp [hl'] at hx
+      | union hc hp _ _ _ _ _ =>
+        simp only [hc, hp] at hx
+        by_cases hl : var.listElement = true
+        · simp only [hl, if_true, List.all_eq_true] at hx
+          simpa [unionItemOK] using hx _ hy
+        · have hl' : var.listElement = false := by simpa using hl
+          simp [hl', unionItemOK] at hx
   | prim p => simp [itemsN] at hy
   | obj c fs => simp [itemsN] at hy
   | any q t tl a cs => simp [itemsN] at hy
   | derived q v t => simp [itemsN] at hy
   | attrs a => simp [itemsN] at hy
 
-/-! ### the list wildcard -/
+/-! ### the wildcard (a list, or a single generic element) -/
 
-theorem wild_items {e : BEnv} {Γ : Ctx} {m : XmlMeta} {ci : ClassInfo} {var : XmlVar}
+theorem wild_cases {e : BEnv} {Γ : Ctx} {m : XmlMeta} {ci : ClassInfo} {var : XmlVar}
     (hw : WildFactsN m var) {rc : ClassId → Option QN → Val → Bool} {x : Val} {inh : Bool}
     (hx : FN.elemValOK inh e Γ m ci var rc x = true) :
-    ∃ xs, x = .list xs ∧ itemsN var x = xs ∧ ∀ y ∈ xs, wildItemOK e Γ m var y = true := by
+    (var.listElement = true ∧ ∃ xs, x = .list xs ∧ ∀ y ∈ xs, wildItemOK e Γ m var y = true) ∨
+    (var.listElement = false ∧ x = .none ∧ fdNone ci var.name = true) ∨
+    (var.listElement = false ∧ wildItemOK e Γ m var x = true) := by
   unfold FN.elemValOK at hx
   rw [Bool.and_eq_true] at hx
   replace hx := hx.2
   have hiw : var.isWildcard = true := by simp [VarCore.isWildcard, hw.isWild]
   simp only [hiw, if_true] at hx
-  cases x <;> simp at hx
-  rename_i xs
-  exact ⟨xs, rfl, by simp [itemsN, hw.tokens], hx⟩
+  cases hl : var.listElement with
+  | true =>
+    simp only [hl, if_true] at hx
+    cases x <;> simp at hx
+    rename_i xs
+    exact Or.inl ⟨rfl, xs, rfl, hx⟩
+  | false =>
+    simp only [hl, Bool.false_eq_true, if_false] at hx
+    cases x with
+    | none => exact Or.inr (Or.inl ⟨rfl, rfl, by simpa using hx⟩)
+    | _ => exact Or.inr (Or.inr ⟨rfl, by simpa using hx⟩)
 
-/-- the list wildcard of a class: its generic items -/
+theorem wild_items_ok {e : BEnv} {Γ : Ctx} {m : XmlMeta} {ci : ClassInfo} {var : XmlVar}
+    (hw : WildFactsN m var) {rc : ClassId → Option QN → Val → Bool} {x : Val} {inh : Bool}
+    (hx : FN.elemValOK inh e Γ m ci var rc x = true) :
+    ∀ y ∈ itemsN var x, wildItemOK e Γ m var y = true := by
+  intro y hy
+  rcases wild_cases hw hx with ⟨_, xs, rfl, hall⟩ | ⟨_, rfl, _⟩ | ⟨_, hok⟩
+  · have : itemsN var (.list xs) = xs := by simp [itemsN, hw.tokens]
+    rw [this] at hy
+    exact hall y hy
+  · simp [itemsN, hw.nillable] at hy
+  · obtain ⟨q, t, a, kids, rfl, _⟩ := wildItemOK_any hok
+    simp only [itemsN, List.mem_singleton] at hy
+    rw [hy]; exact hok
+
+/-- one generic item: generator, writer, parser -/
+theorem wild_item (e : BEnv) (Γ : Ctx) (cfg : SerCfg) (pcfg : ParserConfig) (M : NsMap)
+    (ns : Option Str) (rec : XmlVar → Val → Tree) {m : XmlMeta} {var : XmlVar}
+    (hw : WildFactsN m var) {y : Val} (hok : wildItemOK e Γ m var y = true) (f' : Nat) (hf : y.size ≤ f') :
+    (∃ evs, itemGen e Γ cfg var ns (f' + 1) y = .ok evs ∧
+      SubW M (isDatatype Γ) evs (treeSax (itemTreeNN M rec var y)) ∧
+      (TypesGood e M evs → ItemK e Γ pcfg M m var y (itemTreeNN M rec var y))) ∧
+    plain M (itemTreeNN M rec var y) = true := by
+  obtain ⟨q, t, a, kids, rfl, _, _, _, _, _, hcanon⟩ := wildItemOK_any hok
+  have htree : itemTreeNN M rec var (.any (some q) (some t) none a kids) =
+      treeOfAny M (.any (some q) (some t) none a kids) := rfl
+  rw [htree]
+  refine ⟨⟨_, ?_, SubW_treeOfAny e Γ M hcanon, fun _ => itemK_wild e Γ pcfg M hw hok⟩,
+    plain_treeOfAny e Γ M _ hcanon⟩
+  simp only [itemGen, hw.tokens, Bool.false_eq_true, if_false]
+  rw [genValue_any_wild e Γ cfg hw.isWild hw.mixed hw.tokens]
+  exact genAnyType_canon e Γ cfg M var hcanon f' hf ns
+
+/-- the wildcard of a class: its generic items -/
 theorem wild_bundle (e : BEnv) (Γ : Ctx) (cfg : SerCfg) (pcfg : ParserConfig) (M : NsMap)
     (ns : Option Str) (rec : XmlVar → Val → Tree) {m : XmlMeta} {ci : ClassInfo} {var : XmlVar}
     (hw : WildFactsN m var) {rc : ClassId → Option QN → Val → Bool} {x : Val} {inh : Bool}
     (hx : FN.elemValOK inh e Γ m ci var rc x = true) (f : Nat) (hfuel : 4 * x.size + 2 ≤ f) :
     VarBundleG e Γ cfg pcfg M m ci ns rec f var x := by
-  obtain ⟨xs, rfl, hitems, hall⟩ := wild_items hw hx
-  have hany := fun y hy => wildItemOK_any (hall y hy)
-  refine ⟨Shape.list xs hw.tokens hw.list ?_, ?_, fun h => by simp [hw.list] at h, ?_⟩
-  · intro y hy
-    obtain ⟨q, t, a, kids, rfl, _⟩ := hany y hy
-    rfl
-  · rw [hitems]
+  rcases wild_cases hw hx with ⟨hl, xs, rfl, hall⟩ | ⟨hl, rfl, hfd⟩ | ⟨hl, hok⟩
+  · have hitems : itemsN var (.list xs) = xs := by simp [itemsN, hw.tokens]
+    have hd : var.default = .listFactory := by have := hw.default; simpa [hl] using this
+    refine ⟨Shape.list xs hw.tokens hl ?_, ?_, fun h => by simp [hl] at h, ?_⟩
+    · intro y hy
+      obtain ⟨q, t, a, kids, rfl, _⟩ := wildItemOK_any (hall y hy)
+      rfl
+    · rw [hitems]
+      intro y hy fI hF
+      have hsz := size_le_sizeList hy
+      simp only [Val.size] at hfuel
+      obtain ⟨f', rfl⟩ : ∃ f', fI = f' + 1 := ⟨fI - 1, by rcases hF with h | h <;> omega⟩
+      exact wild_item e Γ cfg pcfg M ns rec hw (hall y hy) f' (by rcases hF with h | h <;> omega)
+    · rw [hitems]
+      cases xs with
+      | nil => exact Or.inr ⟨by simp [finalParam, hl, hw.init], Or.inr (Or.inl ⟨rfl, hd⟩)⟩
+      | cons a l => exact Or.inl (by simp [finalParam, hl, hw.init])
+  · have hitems : itemsN var .none = [] := by simp [itemsN, hw.nillable]
+    exact ⟨Shape.none hw.tokens hl, by simp [hitems], fun _ => by simp [hitems],
+      Or.inr ⟨by simp [hitems, finalParam, hl, hw.init], Or.inl ⟨rfl, hfd⟩⟩⟩
+  · obtain ⟨q, t, a, kids, rfl, _⟩ := wildItemOK_any hok
+    have hitems : itemsN var (.any (some q) (some t) none a kids) = [.any (some q) (some t) none a kids] := rfl
+    refine ⟨Shape.any _ _ _ _ _ hw.tokens hl, ?_, fun _ => by simp [hitems],
+      Or.inl (by simp [hitems, finalParam, hl, hw.init])⟩
+    rw [hitems]
     intro y hy fI hF
-    have hsz := size_le_sizeList hy
-    simp only [Val.size] at hfuel
-    obtain ⟨q, t, a, kids, rfl, _, _, _, _, _, hcanon⟩ := hany y hy
-    obtain ⟨f', rfl⟩ : ∃ f', fI = f' + 1 := ⟨fI - 1, by rcases hF with h | h <;> omega⟩
-    have htree : itemTreeNN M rec var (.any (some q) (some t) none a kids) =
-        treeOfAny M (.any (some q) (some t) none a kids) := rfl
-    rw [htree]
-    refine ⟨⟨_, ?_, SubW_treeOfAny e Γ M hcanon, fun _ => itemK_wild e Γ pcfg M hw (hall _ hy)⟩,
-      plain_treeOfAny e Γ M _ hcanon⟩
-    simp only [itemGen, hw.tokens, Bool.false_eq_true, if_false]
-    rw [genValue_any_wild e Γ cfg hw.isWild hw.mixed hw.tokens]
-    exact genAnyType_canon e Γ cfg M var hcanon f' (by rcases hF with h | h <;> omega) ns
-  · rw [hitems]
-    cases xs with
-    | nil => exact Or.inr ⟨by simp [finalParam, hw.list, hw.init], Or.inr (Or.inl ⟨rfl, hw.default⟩)⟩
-    | cons a l => exact Or.inl (by simp [finalParam, hw.list, hw.init])
+    simp only [List.mem_singleton] at hy
+    subst hy
+    have hfI : fI = f + 1 := by
+      rcases hF with h | h
+      · exact h
+      · simp [Val.isArray] at h
+    subst hfI
+    exact wild_item e Γ cfg pcfg M ns rec hw hok f (by omega)
 
 theorem items_nones_wild {e : BEnv} {Γ : Ctx} {m : XmlMeta} {ci : ClassInfo} {var : XmlVar}
     (hw : WildFactsN m var) {rc : ClassId → Option QN → Val → Bool} {x : Val} {inh : Bool}
     (hx : FN.elemValOK inh e Γ m ci var rc x = true) :
     ∀ y ∈ itemsN var x, y = .none → var.nillable = true := by
-  obtain ⟨xs, rfl, hitems, hall⟩ := wild_items hw hx
-  rw [hitems]
   intro y hy hn
   subst hn
-  simpa [wildItemOK] using hall _ hy
+  simpa [wildItemOK] using wild_items_ok hw hx _ hy
 
 end Proofs.C01
